@@ -370,8 +370,14 @@ def slogdet(A):
     return _np.linalg.slogdet(A)
   A, d = _sq(A)
   dt = det(A)
-  sgn = npproxy._sign1(dt)
-  return sgn, sym_log(abs(dt))
+  if not is_sym(dt):
+    return _np.sign(dt), sym_log(abs(dt))
+  # fork on the sign (concrete sign on each path keeps the downstream terms simple)
+  if bool(dt > 0):
+    return _np.float64(1.0), sym_log(dt)
+  if bool(dt < 0):
+    return _np.float64(-1.0), sym_log(-dt)
+  return _np.float64(0.0), core.NINF
 
 
 def pinvh(A, *a, **k):
